@@ -1,6 +1,9 @@
 #!/bin/bash
 # usage: tools/try_seed.sh <seed dir> <property>...   applies patch.diff to /repo, runs the checks, undoes it
 d=$1; shift
+# evidence / replays of runs on a changed tree must never overwrite the committed ones
+export VERIF_EVIDENCE=/tmp/sv/evidence_try VERIF_REPLAYS=/tmp/sv/replays_try
+mkdir -p $VERIF_EVIDENCE $VERIF_REPLAYS
 git -C /repo apply $d/patch.diff || exit 1
 for p in "$@"; do ./check $p 2>&1 | grep -E "^VIOLATION|^BOUNDED|exit [0-9]$" | cut -c1-260; done
 git -C /repo checkout -- .
